@@ -65,11 +65,13 @@ def debMode (fm : Nat) : Nat :=
 def debHeader (now : Int) (pref : List Int) (c : Content) : Member :=
   let fi := cinfo c
   let mt := mtimeGet now (pref ++ [fi.mtime])
-  if isDirType c.type || hasBit fi.mode modeDirBit then
-    { name := asExplicitRel c.dst, kind := tDir, mode := debMode fi.mode, uname := fi.owner, gname := fi.group, mtime := mt }
-  else if c.type = T.symlink || hasBit fi.mode modeSymlinkBit then
+  -- the declared type first: a symlink entry's file info may carry the directory bit of whatever its target is on
+  -- the build host (fix 37116f4; before it the directory test came first)
+  if c.type = T.symlink || hasBit fi.mode modeSymlinkBit then
     { name := asExplicitRel c.dst, kind := tSym, mode := debMode fi.mode, uname := fi.owner, gname := fi.group, mtime := mt,
       link := c.src }
+  else if isDirType c.type || hasBit fi.mode modeDirBit then
+    { name := asExplicitRel c.dst, kind := tDir, mode := debMode fi.mode, uname := fi.owner, gname := fi.group, mtime := mt }
   else
     { name := asExplicitRel c.dst, kind := tReg, mode := debMode fi.mode, uname := fi.owner, gname := fi.group, mtime := mt,
       size := fi.size, src := c.src }
